@@ -39,25 +39,27 @@ type ruleStat struct {
 
 // Ctx is the loaded program plus the obligation ledger of one property run.
 type Ctx struct {
-	Prop     string
-	Tier     string
-	RepoDir  string
-	VerifDir string
-	Fset     *token.FileSet
-	Roots    []*packages.Package
-	ByPath   map[string]*packages.Package
-	Prog     *ssa.Program
-	SSA      map[string]*ssa.Package
-	cg       *callgraph.Graph
-	cgKind   string
-	Obls     []*Obl
-	keys     map[string]int
-	floors   map[string]int
-	order    []string
-	known    []knownFinding
-	notes    []string
-	start    time.Time
-	nFuncs   int
+	Prop      string
+	Tier      string
+	RepoDir   string
+	VerifDir  string
+	Fset      *token.FileSet
+	Roots     []*packages.Package
+	ByPath    map[string]*packages.Package
+	Prog      *ssa.Program
+	SSA       map[string]*ssa.Package
+	cg        *callgraph.Graph
+	cgKind    string
+	Obls      []*Obl
+	keys      map[string]int
+	floors    map[string]int
+	order     []string
+	known     []knownFinding
+	notes     []string
+	start     time.Time
+	nFuncs    int
+	rangeMemo map[*ssa.Function][4]int64
+	rangeBusy map[*ssa.Function]bool
 }
 
 type knownFinding struct {
